@@ -557,6 +557,11 @@ def run(ctx):
         core.run_sharded(ctx, __name__, 'shard', 1, (1000,))
     else:
         core.run_sharded(ctx, __name__, 'shard', getattr(ctx, 'shards_override', None) or 16, (8000,))
+        with ctx.timed('atheris'):
+            from hplverif import fuzz
+
+            fuzz.tape_campaigns(ctx, 'C13', 8, 60000)
+
 
 
 def extra_evidence(ctx):
